@@ -62,6 +62,14 @@ let handle (toks : Stdlib.String.t list) : Stdlib.String.t =
       Stdlib.String.concat " " (Stdlib.List.map show_out
         (run_adaptor_session (mode_of m) (v = "1") tab (k = "U") (nat_of_int (int_of_string sc)) (Stdlib.List.map item_of its)
            (Stdlib.List.map (fun s -> nat_of_int (int_of_string s)) sizes)))
+  | "async" :: m :: v :: rest ->
+      let (fs, rest2) = split_bar [] rest in
+      let (evs, rest3) = split_bar [] rest2 in
+      let (wevs, cs) = split_bar [] rest3 in
+      let tab = Stdlib.List.map frame_of fs in
+      let rs = Stdlib.List.map (fun s -> if s = "N" then APend else AEv (ev_of s)) evs in
+      let cancels = match cs with [c] -> Stdlib.List.init (Stdlib.String.length c) (fun i -> c.[i] = '1') | _ -> [] in
+      Stdlib.String.concat " " (Stdlib.List.map show_out (run_async (mode_of m) (v = "1") tab rs (Stdlib.List.map wev_of wevs) cancels))
   | ["awrite"; h] ->
       let (its, n) = awrite (bytes_of_hex h) in
       Stdlib.String.concat " " (Stdlib.List.map show_item its) ^ " " ^ string_of_int (int_of_nat n)
